@@ -10,6 +10,8 @@ import Relic.Driver.C09
 import Relic.Driver.C18
 import Relic.Driver.C16
 import Relic.Driver.C10
+import Relic.Driver.C13
+import Relic.Driver.C19
 open Relic
 
 def dispatch (line : String) : String :=
@@ -25,6 +27,8 @@ def dispatch (line : String) : String :=
   | "C18" :: rest => Relic.Driver.C18.handle rest
   | "C16" :: rest => Relic.Driver.C16.handle rest
   | "C10" :: rest => Relic.Driver.C10.handle rest
+  | "C13" :: rest => Relic.Driver.C13.handle rest
+  | "C19" :: rest => Relic.Driver.C19.handle rest
   | _ => "bad-op"
 
 partial def loop (h : IO.FS.Stream) (out : IO.FS.Stream) : IO Unit := do
